@@ -212,5 +212,34 @@ def run(tw, tier, seed, only=None):
             "rule": "a graph is non-trivial when the exact back-end was compared across renumbered copies"}
 
 
+def graph_from_desc(d):
+    G = nx.Graph()
+    for n, a in d["nodes"]:
+        a = dict(a)
+        G.add_node(n, **a)
+    for u, v, a in d["edges"]:
+        a = dict(a)
+        if isinstance(a.get("order"), list):
+            a["order"] = tuple(a["order"])
+        G.add_edge(u, v, **a)
+    return G
+
+
 def replay(tw, desc):
-    return {"note": "re-run the quick check; the failing graph is described in the failure record", "violations": desc.get("violations", [])}
+    """re-executes the failing case on the current tree: the graph (and, for the soundness clause, the second graph) is rebuilt
+    from the record and goes through the same checks"""
+    fails = []
+    canons = {be: GraphCanonicaliser(backend=be) for be in BACKENDS}
+    G = graph_from_desc(desc["graph"]) if desc.get("graph") else None
+    if G is not None:
+        for seed in range(3):
+            check_graph(tw, G, canons, fails, random.Random(seed), {}, all_perms=G.number_of_nodes() <= 4, k=8)
+        if desc.get("other"):
+            H = graph_from_desc(desc["other"])
+            be = desc.get("backend", "generic")
+            same_sig = canons[be].canonical_signature(G) == canons[be].canonical_signature(H)
+            if same_sig and not iso_cov(G, H):
+                fails.append({"violations": ["sound: equal signatures for graphs that are not isomorphic on the covered attributes"]})
+            if be == "nauty" and not same_sig and iso_cov(G, H):
+                fails.append({"violations": ["invariant: isomorphic graphs get different signatures"]})
+    return {"violations": [v for f in fails for v in f["violations"]]}
